@@ -40,6 +40,7 @@ type allocCase struct {
 	data    []byte
 	segs    []seg
 	warm    []seg // document the buffer was warmed on (buffer-taking functions)
+	gc      bool  // the measured call is the first one after two forced garbage collections (sync.Pool contents are gone)
 	pre     int   // destination: existing length
 	cap     int   // destination: capacity
 }
@@ -158,6 +159,21 @@ func runAlloc(sw *shardWriter, j *jb, c allocCase, st *genStats) {
 				panicked = 1
 			}
 		}()
+		if c.gc {
+			ok = f()
+			runtime.GC()
+			runtime.GC()
+			allocs = float64(singleShotMallocs(func() { ok = f() })) / 5
+			// a stray allocation by the runtime after a collection does not repeat: keep the minimum of three
+			for retry := 0; retry < 2 && allocs > 0; retry++ {
+				runtime.GC()
+				runtime.GC()
+				if a2 := float64(singleShotMallocs(func() { ok = f() })) / 5; a2 < allocs {
+					allocs = a2
+				}
+			}
+			return
+		}
 		if c.between || c.warmFn != "" {
 			// the first call after the interleaved short calls / after the other function's warm-up is the one that matters
 			allocs = float64(singleShotMallocs(func() { ok = f() })) / 5
@@ -195,6 +211,8 @@ func runAlloc(sw *shardWriter, j *jb, c allocCase, st *genStats) {
 	j.str(c.warmFn)
 	j.raw(`,"between":`)
 	j.b01(c.between)
+	j.raw(`,"gc":`)
+	j.b01(c.gc)
 	j.raw(`,"usesbuf":`)
 	j.b01(c.warm != nil)
 	j.raw(`,"usesdst":`)
@@ -224,9 +242,16 @@ func nestSegs(open, bottom, close string, n int) []seg {
 }
 
 func genAllocC19(c *genCtx, sw *shardWriter, j *jb) {
+	nrun := 0
 	run := func(fn string, data []byte, segs []seg, warm []seg, pre, cp int) {
 		setCurrent("alloc " + fn)
 		runAlloc(sw, j, allocCase{fn: fn, data: data, segs: segs, warm: warm, pre: pre, cap: cp}, c.st)
+		// every third case also as the first call after two collections: whatever a function keeps in a
+		// sync.Pool (or any other collectable cache) is gone then, and the call has to allocate it again
+		if nrun++; nrun%3 == 0 || c.thorough() {
+			setCurrent("alloc after gc " + fn)
+			runAlloc(sw, j, allocCase{fn: fn, data: data, segs: segs, warm: warm, pre: pre, cap: cp, gc: true}, c.st)
+		}
 	}
 	// numbers: integers at bounds, floats on every conversion path
 	ints := []string{"0", "-0", "7", "-7", "2147483647", "-2147483648", "4294967295", "9223372036854775807", "-9223372036854775808",
@@ -685,8 +710,9 @@ func init() {
 			}
 		}
 		btw, _ := ev["between"].(float64)
+		gcf, _ := ev["gc"].(float64)
 		wf, _ := ev["warmfn"].(string)
-		runAlloc(nil, &j, allocCase{warmFn: wf, fn: ev["fn"].(string), data: d, segs: segs, warm: warm, pre: int(ev["dstlen"].(float64)), cap: int(ev["dstcap"].(float64)), between: btw == 1}, newStats())
+		runAlloc(nil, &j, allocCase{warmFn: wf, fn: ev["fn"].(string), data: d, segs: segs, warm: warm, pre: int(ev["dstlen"].(float64)), cap: int(ev["dstcap"].(float64)), between: btw == 1, gc: gcf == 1}, newStats())
 		return append([]byte{}, j.b...), nil
 	}
 }
